@@ -129,7 +129,7 @@ func c03Project(res *Result, sc *srvScenario, r *srvRun) (trace []string, ok boo
 				ni := info[n]
 				if ni.note && ni.msg < me.msg && !finished[n] {
 					res.Violatef("request started while an earlier notification was unfinished", r.replayInput(sc),
-						"%s (message %d) started before notification %s (message %d) had returned; log: %s", tag, me.msg, n, ni.msg, strings.Join(r.Log, " | "))
+						"%s (message %d) started before notification %s (message %d) had returned; log: %s", tag, me.msg, n, ni.msg, shortLog(r.Log))
 					ok = false
 				}
 			}
@@ -155,7 +155,7 @@ func c03Project(res *Result, sc *srvScenario, r *srvRun) (trace []string, ok boo
 					}
 					if !started[a] && !blocked {
 						res.Violatef("a running call delays a later request below the concurrency limit", r.replayInput(sc),
-							"%d handler(s) held, limit %d, but %s has not started; log: %s", held, sc.Concurrency, a, strings.Join(r.Log, " | "))
+							"%d handler(s) held, limit %d, but %s has not started; log: %s", held, sc.Concurrency, a, shortLog(r.Log))
 						ok = false
 					}
 				}
@@ -226,7 +226,7 @@ func TestC03(t *testing.T) {
 		res.Case(logShape(r.Log), nontrivial, map[string]any{"trace": strings.Join(trace, " "), "choices": len(r.Choices)})
 		res.Count(fmt.Sprintf("concurrency:%d", sc.Concurrency))
 		if r.Stuck != "" {
-			res.Violatef("server run did not finish: "+r.Stuck, r.replayInput(sc), "log: %s", strings.Join(r.Log, " | "))
+			res.Violatef("server run did not finish: "+r.Stuck, r.replayInput(sc), "log: %s", shortLog(r.Log))
 		}
 		lines = append(lines, "c03 "+strings.Join(trace, " "))
 		metas = append(metas, r.replayInput(sc))
